@@ -45,9 +45,19 @@ def gen_case(rng, i, tier):
                     lst.append([f"m{k}", list(pos)])
                     k += 1
                 reg.append([list(sub), lst])
+    competing = nax == 3 and rng.random() < 0.4
+    if competing:
+        # "largest block first": all single-axis metrics plus one or two two-axis metrics, nothing for the full set,
+        # everything at the array's position - a two-axis block must be used, not the product of three singles
+        apos = {a: rng.choice(list(cm[a])) for a in axn}
+        reg, k = [], 0
+        for sub in [(a,) for a in axn] + rng.sample(list(itertools.combinations(axn, 2)), rng.randint(1, 2)):
+            reg.append([list(sub), [[f"m{k}", [apos[a] for a in sub]]]])
+            k += 1
     rng.shuffle(reg)
-    apos = {a: rng.choice(list(cm[a])) for a in axn}
-    q = rng.sample(axn, rng.randint(1, nax))
+    if not competing:
+        apos = {a: rng.choice(list(cm[a])) for a in axn}
+    q = rng.sample(axn, rng.randint(1, nax)) if not competing else rng.sample(axn, 3)
     adims = [cm[a][apos[a]] for a in axn if a in q or rng.random() < 0.6]
     extra = {}
     if rng.random() < 0.4:
